@@ -716,7 +716,17 @@ static void engine_run(void) {
 				thrown2 = 1;
 			}
 			int code2 = err_get_code() != RLC_OK;
-			tr_printf("DEC %d %s ok len=%zu same=%d rethrown=%d recode=%d re=", s, type, len, same, thrown2, code2);
+			/* the packed form of a target-group element only exists for members of the cyclotomic subgroup: what a decode of
+			 * the packed length yields is tested with the library's own predicate (the python model has no F_p^12) */
+			int cyc = -1;
+			if (len == 8 * RLC_FP_BYTES && has_pc) {
+				if (!strcmp(type, "fp12")) cyc = fp12_test_cyc(f12y);
+#if FP_PRIME != 255
+				else if (!strcmp(type, "gt")) cyc = fp12_test_cyc((void *)gy);
+#endif
+				(void)err_get_code();
+			}
+			tr_printf("DEC %d %s ok len=%zu same=%d rethrown=%d recode=%d cyc=%d re=", s, type, len, same, thrown2, code2, cyc);
 			tr_hex(ob, strcmp(type, "bnraw") ? len : len - len % sizeof(dig_t));
 			tr_str("\n");
 			free(ob);
